@@ -393,7 +393,13 @@ def run_two_pass(loads, law, second=True, peek="none", ckpt="none", loads_second
         if peek in ("between", "both"):
             rec.collective
         if peek == "plot":
-            det.interpolated_stress_strain_data(n_points_per_branch=3)      # the documented way to look at the curve so far
+            # the documented way to look at the curve so far.  Whether the plot helper itself copes with every
+            # history is not C04's or C05's subject (it raises AttributeError for [2,-2,0,-3,2,0,2] on the unchanged
+            # tree); what is judged is that looking does not change what is counted afterwards.
+            try:
+                det.interpolated_stress_strain_data(n_points_per_branch=3)
+            except Exception:      # noqa
+                pass
         if ckpt == "fork":
             # both the original and its deep copy go on (the assessment code hands the first-pass detector
             # to the user and continues on a copy): the copy is what the caller evaluates, the original runs first
